@@ -135,7 +135,11 @@ fn run_case(seed: u64, index: u64, md: &mut Model, rep: &mut Report) {
                 let mut txn = reps[i].doc.transact_mut();
                 for seq in 0..r.range(1, 3) as usize {
                     let k = *r.pick(&KEYS);
-                    match r.below(10) {
+                    match r.below(12) {
+                        // the conditional writes of the API: get_or_init writes a fresh nested map unless the key holds a (live) map;
+                        // try_update writes unless the key holds an equal value
+                        10 => { let holds_map = matches!(m.get(&txn, k), Some(Out::YMap(_))); sc.push(format!("m.get_or_init::<MapRef>({k})")); let inner: MapRef = m.get_or_init(&mut txn, k); if !holds_map { tag += 1; inner.insert(&mut txn, "tag", Any::Number(tag as f64)); sc.push(format!("  .insert(tag,{tag})")); new_ops.push((seq, k.to_string(), Kind::Write(tag))); } }
+                        11 => { tag += 1; sc.push(format!("m.try_update({k},{tag})")); m.try_update(&mut txn, k, Any::Number(tag as f64)); new_ops.push((seq, k.to_string(), Kind::Write(tag))); }
                         0..=4 => { tag += 1; sc.push(format!("m.insert({k},{tag})")); m.insert(&mut txn, k, Any::Number(tag as f64)); new_ops.push((seq, k.to_string(), Kind::Write(tag))); }
                         5 => { tag += 1; sc.push(format!("m.insert({k},Map{{tag:{tag}}})")); m.insert(&mut txn, k, MapPrelim::from([("tag", Any::Number(tag as f64))])); new_ops.push((seq, k.to_string(), Kind::Write(tag))); }
                         6..=8 => { if m.contains_key(&txn, k) { sc.push(format!("m.remove({k})")); m.remove(&mut txn, k); new_ops.push((seq, k.to_string(), Kind::Remove)); } }
